@@ -1,0 +1,45 @@
+//go:build verif
+
+package writecache
+
+import (
+	"time"
+
+	"github.com/nspcc-dev/neofs-node/pkg/local_object_storage/shard/mode"
+	oid "github.com/nspcc-dev/neofs-sdk-go/object/id"
+)
+
+// VerifMode returns the cache's own mode and whether its file tree is
+// opened read-only (verification harness only).
+func VerifMode(c Cache) (mode.Mode, bool) {
+	cc := c.(*cache)
+	cc.modeMtx.RLock()
+	defer cc.modeMtx.RUnlock()
+	return cc.mode, cc.fsTree.VerifReadOnly()
+}
+
+// VerifFlushTick hands every cached object to the background flush workers,
+// one object per batch (what the scheduler does on its tick), and waits until
+// the workers are done with all of them.
+func VerifFlushTick(c Cache) {
+	cc := c.(*cache)
+	for addr := range cc.objCounters.Map() {
+		if _, loaded := cc.flushObjs.LoadOrStore(addr, struct{}{}); loaded {
+			continue
+		}
+		select {
+		case cc.flushCh <- []oid.Address{addr}:
+		case <-time.After(5 * time.Second):
+			cc.flushObjs.Delete(addr)
+			return
+		}
+	}
+	for range 5000 {
+		busy := false
+		cc.flushObjs.Range(func(_, _ any) bool { busy = true; return false })
+		if !busy {
+			return
+		}
+		time.Sleep(time.Millisecond)
+	}
+}
